@@ -167,7 +167,8 @@ CLAIMED['C10'] = dict(
          'its own theorems and the same schedule replay: MultiPort fan-in (ConcMulti.v: no raise, exactly once), MultiPort fan-out (ConcFan.v: no raise, every sub-port gets every '
          'message exactly once and all in one order, per-sender order), ANY mix of uses of a MultiPort at once (ConcMix.v: no raise, every deque hands out exactly what was put into it and in that order, what the sweep takes off the sub-ports is what reaches the MultiPort\'s own deque, mutual exclusion on every lock), ParserQueue fed by several threads (ConcPQ.v: FIFO, per-feeder order), and the copy clause (SendCopy.v, a '
          'heap of objects with identity: what is received holds the value at send time whatever caller and receivers edit afterwards, for every history and any number of '
-         'queues). The helper functions multi_send / multi_receive on a shared list run on the real threads under explored schedules against the '
+         'queues). The helper functions multi_send / multi_receive(block=False) on a caller\'s list of ports, mixed with every other use, are ConcHelpers.v (a call expanded into the sends / drains it spells out and run on ConcMix.v: no raise, per-sender order, each listed sub-port exactly once; every scheduled helper run replayed), '
+         'except in programs that also receive on the MultiPort itself and multi_receive(block=True), which run on the real threads under explored schedules against the '
          'statement only; the behaviour without the lock, and with aliasing instead of copying, are refuted theorems.',
     technique='Coq proof (step invariant preserved by every thread step, induction over the schedule) + model/implementation correspondence on systematically explored schedules', design='5/C10')
 NOT_YET = {}
